@@ -286,13 +286,18 @@ func runC09(c c09Case) evid.Outcome {
 			return evid.Outcome{Fail: f}
 		}
 	}
-	// every block's goroutine ends, awaited or not
+	// every block's goroutine ends, awaited or not. The count is only the trigger; the verdict
+	// is about goroutines that are still inside the VM or the interpreter (twice under heavy load
+	// the count stayed two above the baseline for 30 s and nothing reproduced alone: a count cannot
+	// tell whose goroutines those are).
 	deadline := time.Now().Add(evid.Stretch(30 * time.Second))
 	for runtime.NumGoroutine() > afterStart+1 && time.Now().Before(deadline) {
 		time.Sleep(2 * time.Millisecond)
 	}
 	if n := runtime.NumGoroutine(); n > afterStart+1 {
-		return evid.Failf("c09.goroutines-left-behind", "%d goroutines before the server, %d after start-up, still %d thirty seconds after the last request\n%s", base, afterStart, n, src)
+		if left := evid.ProductGoroutines("websocket.(*Hub).Run", "websocket.(*Hub).cleanup", "RateLimitMiddleware", "BasicAuthMiddleware"); len(left) > 0 {
+			return evid.Failf("c09.goroutines-left-behind", "%d goroutines before the server, %d after start-up, still %d after the drain wait; %d of them are inside the runtime under test:\n%s\n--- program ---\n%s", base, afterStart, n, len(left), strings.Join(left, "\n\n"), src)
+		}
 	}
 	labels := []string{fmt.Sprintf("blocks:%d", len(c.Blocks))}
 	kinds := map[string]bool{}
